@@ -58,6 +58,26 @@ def run(chk):
                    s0 + b"\n" + foreign, s0 + s0, s0[:sig_at] + b"\n" + foreign + b"\n" + s0[sig_at:], s0.replace(b"\n", b"\r\n"),
                    s0.replace(b"hello", b"hello "), s0.replace(b"Hash: SHA256", b"Hash: SHA1"), s0.replace(b"hello", b"hellp")]:
             cases.append(("csread", [kr, sp])); tags.append("splice")
+    # several signature packets in ONE armor (OpenPGP allows it): stale, foreign, empty-text and good signatures in every
+    # order of two and some of three; the library's CheckDetachedSignature decides, over the text that is then parsed
+    evil = b"Source: evil\nVersion: 9\n"
+    combos = []
+    for t in (t0, evil):
+        for a in (b"0", b"1"):
+            for b in (b"0", b"1"):
+                for xa in (t, b"", b"Source: other\n"):
+                    for xb in (t, b"", b"Source: other\n"):
+                        combos.append([t, a, xa, b, xb])
+        combos.append([t, b"0", b"Source: other\n", b"1", b"", b"0", t])
+        combos.append([t, b"2", t, b"0", b"", b"0", b""])
+        combos.append([t, b"0", b""])
+    mi = chk.run_impl([("csmulti", c) for c in combos])
+    for c, r in zip(combos, mi):
+        if not r.startswith("x"):
+            raise lib.Infra("csmulti could not build a multi-signature document: %r" % r)
+        d = bytes.fromhex(r[1:])
+        for kr in (b"0", b"1", b"01", b"10", b"2", b"e"):
+            cases.append(("csread", [kr, d])); tags.append("multi-signature")
     impl = chk.run_impl(cases)
     o3 = [split3(l) for l in impl]
     # the model, with the library's own answers as its oracles
